@@ -51,6 +51,8 @@ type ScriptedSource struct {
 	starts    int
 	// sampleErr, if set, makes the next Sample() fail (hardware not sending yet).
 	sampleErr error
+	// startRunErr, if set, makes the next StartRun() fail (the driver refuses to start).
+	startRunErr error
 	// geomRows > 0 lays the channels out column-major on a rows x cols array.
 	geomRows int
 }
@@ -89,6 +91,11 @@ func (ss *ScriptedSource) Sample() error {
 
 // StartRun is part of DataSource: a producer goroutine like the simulated sources'.
 func (ss *ScriptedSource) StartRun() error {
+	if ss.startRunErr != nil {
+		err := ss.startRunErr
+		ss.startRunErr = nil
+		return err
+	}
 	ss.starts++
 	ss.delivered = 0
 	if ss.geomRows > 0 && ss.subframeDivisions > 1 {
